@@ -7,6 +7,11 @@ Inductive iobs :=
 | IPanic
 | IOk (epath : bytes) (q : qmap) (scheme host : bytes).
 
+(* one operation of a history on one Runtime: outs = the distinct results inside the history,
+   fresh = the distinct results of the same request built on a fresh Runtime *)
+Inductive hstep :=
+| HStep (pattern : bytes) (pps : list (bytes * bytes)) (qps : qmap) (os : list bytes) (outs fresh : list iobs).
+
 Inductive case :=
 (* the same inputs run several times (Go iterates the parameter map in a random order); outs = the distinct results *)
 | CUrl (base pattern : bytes) (pps : list (bytes * bytes)) (qps : qmap) (rs os : list bytes) (host : bytes)
@@ -14,7 +19,9 @@ Inductive case :=
 | CScheme (rs os : list bytes) (got : bytes)
 (* library models: url.PathEscape, url.PathUnescape, (&url.URL{Path: v}).EscapedPath, validEncoded via RawPath *)
 | CEsc (v pe : bytes) (un : option bytes) (ep : bytes)
-| CJoin (a b j : bytes).
+| CJoin (a b j : bytes)
+(* several operations built in sequence on ONE Runtime (host, base path, transport schemes fixed) *)
+| CHist (base : bytes) (rs : list bytes) (host : bytes) (steps : list hstep).
 
 Fixpoint insert_all {A} (x : A) (l : list A) : list (list A) :=
   match l with
@@ -42,30 +49,55 @@ Definition out_eq (i : iobs) (o : outcome) : bool :=
 
 Definition is_exotic (o : outcome) : bool := match o with OutExotic => true | _ => false end.
 
+(* one request: (corresponds to the model for some map order, satisfies the property's predicates) *)
+Definition url_check (base pattern : bytes) (pps : list (bytes * bytes)) (qps : qmap) (rs os : list bytes)
+           (host : bytes) (outs : list iobs) : bool * bool :=
+  let ps := set_all pps in
+  let caller := set_all qps in
+  let mouts := map (fun o => create_request base pattern o caller rs os host) (orders ps) in
+  let corr :=
+    if existsb is_exotic mouts then true
+    else match outs with [] => false | _ => forallb (fun i => existsb (out_eq i) mouts) outs end in
+  let prop :=
+    match url_parse base, url_parse pattern with
+    | PExotic, _ | _, PExotic => true
+    | PErr, _ | _, PErr => match outs with [IErr] => true | _ => false end     (* malformed inputs are refused *)
+    | POk bp _ bq, POk pp _ pq =>
+      match outs with
+      | [IOk ep q sch h] =>
+        segments_ok (lex (path_join bp pp)) (reinstate_slash pp) ps ep
+        && query_ok caller (parse_query pq) (parse_query bq) q
+        && scheme_ok rs os sch && scheme_offered rs os sch && bytes_eqb h host
+      | _ => false        (* an error, a panic, or a result that depends on the map order *)
+      end
+    end in
+  (corr, prop).
+
+Definition iobs_eqb (a b : iobs) : bool :=
+  match a, b with
+  | IErr, IErr | IPanic, IPanic => true
+  | IOk ep q sch h, IOk ep' q' sch' h' =>
+    bytes_eqb ep ep' && qmap_eq q q' && bytes_eqb sch sch' && bytes_eqb h h'
+  | _, _ => false
+  end.
+
+(* one step of a history: the single-request check on what the history produced, and every result
+   inside the history is a result of the same request on a fresh Runtime (nothing is carried over) *)
+Definition step_check (base : bytes) (rs : list bytes) (host : bytes) (s : hstep) : bool * bool :=
+  match s with
+  | HStep pattern pps qps os outs fresh =>
+    let '(corr, prop) := url_check base pattern pps qps rs os host outs in
+    (corr, prop && forallb (fun i => existsb (iobs_eqb i) fresh) outs)
+  end.
+
 Definition check_case (c : case) : N :=
   match c with
   | CUrl base pattern pps qps rs os host outs =>
-    let ps := set_all pps in
-    let caller := set_all qps in
-    let mouts := map (fun o => create_request base pattern o caller rs os host) (orders ps) in
-    let corr :=
-      if existsb is_exotic mouts then true
-      else match outs with [] => false | _ => forallb (fun i => existsb (out_eq i) mouts) outs end in
-    let prop :=
-      match url_parse base, url_parse pattern with
-      | PExotic, _ | _, PExotic => true
-      | PErr, _ | _, PErr => match outs with [IErr] => true | _ => false end     (* malformed inputs are refused *)
-      | POk bp _ bq, POk pp _ pq =>
-        match outs with
-        | [IOk ep q sch h] =>
-          segments_ok (lex (path_join bp pp)) (reinstate_slash pp) ps ep
-          && query_ok caller (parse_query pq) (parse_query bq) q
-          && scheme_ok rs os sch && bytes_eqb h host
-        | _ => false        (* an error, a panic, or a result that depends on the map order *)
-        end
-      end in
-    verdict corr prop
-  | CScheme rs os got => verdict (bytes_eqb got (pick_scheme rs os)) (scheme_ok rs os got)
+    let '(corr, prop) := url_check base pattern pps qps rs os host outs in verdict corr prop
+  | CHist base rs host steps =>
+    let rs' := map (step_check base rs host) steps in
+    verdict (forallb fst rs') (forallb snd rs')
+  | CScheme rs os got => verdict (bytes_eqb got (pick_scheme rs os)) (scheme_ok rs os got && scheme_offered rs os got)
   | CEsc v pe un ep =>
     verdict (bytes_eqb pe (path_escape v) && opt_eqb bytes_eqb un (path_unescape v)
              && match un with Some p => bytes_eqb ep (escaped_path p v) | None => true end)
